@@ -8,7 +8,7 @@
   OverflowError of an out-of-range int escape (lead L4), or when `pid`/`ppid` stop being valid
   `as_dict` names of the kinds the model assumes.
 -/
-import PsutilModel.Proofs.C04
+import PsutilModel.Proofs.C04Step
 import PsutilModel.Model.C04Gen
 namespace Psutil.C04
 open Spec
@@ -196,6 +196,170 @@ theorem C04_pidExists_overflow_counterexample :
     let bad : Cfg := { cfg with rangeGuard := false }
     (step bad (St.init ⟨[⟨1, 10, false, false, .ok⟩], []⟩) (.pidExists 2147483648)).2 = .exc "OverflowError" := by
   decide
+
+/-! ## `process_iter()` — safety, for EVERY history (overlapping generators included) -/
+
+/-- the PID yielded by generator `g` at one step of a run, if any -/
+def yieldOf (g : Nat) : Op × Out → Option Nat
+  | (.next g' _, .yield _ p _) => if g' = g then some p else none
+  | _ => none
+
+/-- the PIDs generator `g` yields along history `h` from state `s`, in order -/
+def yieldsOf (c : Cfg) (s : St) (g : Nat) (h : List Op) : List Nat :=
+  (h.zip (trace c s h)).filterMap (yieldOf g)
+
+theorem yieldsOf_cons (c : Cfg) (s : St) (g : Nat) (op : Op) (ops : List Op) :
+    yieldsOf c s g (op :: ops)
+      = match yieldOf g (op, (step c s op).2) with
+        | some p => p :: yieldsOf c (step c s op).1 g ops
+        | none => yieldsOf c (step c s op).1 g ops := by
+  simp only [yieldsOf, trace, List.zip_cons_cons, List.filterMap_cons]
+  cases yieldOf g (op, (step c s op).2) <;> rfl
+
+/-- **C04_iter_ascending.** Along ANY history — other generators interleaved, the table changing
+    at any point, `cache_clear()`, `is_running()`, partially consumed and closed generators,
+    either order of draining `_pids_reused` — the PIDs one generator yields are strictly
+    ascending (hence no PID twice), and all of them are among the PIDs it still had to visit. -/
+theorem C04_iter_ascending (c : Cfg) (g : Nat) (h : List Op) :
+    ∀ (s : St), Inv s →
+      (yieldsOf c s g h).Pairwise (· < ·) ∧ ∀ l, pending s g = some l → ∀ y ∈ yieldsOf c s g h, y ∈ l := by
+  induction h with
+  | nil => intro s _; simp [yieldsOf]
+  | cons op ops ih =>
+    intro s hi
+    have hs := step_inv c s op hi
+    have ih' := ih (step c s op).1 hs.1
+    rw [yieldsOf_cons]
+    cases hy : yieldOf g (op, (step c s op).2) with
+    | none =>
+      simp only
+      refine ⟨ih'.1, ?_⟩
+      intro l hl y hy'
+      obtain ⟨l', h1, h2⟩ := hs.2 g l hl
+      exact h2 y (ih'.2 l' h1 y hy')
+    | some p =>
+      simp only
+      -- the step is `next(g)` and yielded `p`
+      cases op with
+      | next g' mid =>
+        cases hout : (step c s (.next g' mid)).2 with
+        | yield r p' info =>
+          rw [hout] at hy
+          simp only [yieldOf] at hy
+          split at hy
+          · rename_i hgg
+            simp only [Option.some.injEq] at hy
+            subst hy; subst hgg
+            have gs := genNext_step c s g' mid hi
+            obtain ⟨_, _, _, _, g5, _⟩ := gs
+            obtain ⟨rest, r1, r2, r3⟩ := g5 r p' info hout
+            refine ⟨List.pairwise_cons.mpr ⟨fun y hy' => r2 y (ih'.2 rest r1 y hy'), ih'.1⟩, ?_⟩
+            intro l hl y hy'
+            rcases List.mem_cons.mp hy' with e | hm
+            · rw [e]; exact r3 l hl
+            · obtain ⟨l', h1, h2⟩ := hs.2 g' l hl
+              exact h2 y (ih'.2 l' h1 y hm)
+          · cases hy
+        | unit => rw [hout] at hy; simp [yieldOf] at hy
+        | pidList l => rw [hout] at hy; simp [yieldOf] at hy
+        | bool b => rw [hout] at hy; simp [yieldOf] at hy
+        | exc e => rw [hout] at hy; simp [yieldOf] at hy
+        | gen i => rw [hout] at hy; simp [yieldOf] at hy
+        | stop => rw [hout] at hy; simp [yieldOf] at hy
+        | badArg => rw [hout] at hy; simp [yieldOf] at hy
+      | kev e => simp [yieldOf] at hy
+      | pids => simp [yieldOf] at hy
+      | pidExists n => simp [yieldOf] at hy
+      | iter a => simp [yieldOf] at hy
+      | close g' => simp [yieldOf] at hy
+      | cacheClear => simp [yieldOf] at hy
+      | isRunning r => simp [yieldOf] at hy
+
+/-- **C04_overlap_safety.** From the initial state over any well-formed table, for every history
+    (two or more generators overlapping in any way): each generator yields strictly ascending
+    PIDs without duplicates; every state reached satisfies the invariant; and `next(g)` can only
+    yield, stop, raise ValueError (an invalid name in `attrs`) or IndexError (empty process
+    table) — never anything else. That a yielded PID was in the listing the generator took is
+    `C04_yield_was_listed`. -/
+theorem C04_overlap_safety (c : Cfg) (k : Kernel) (hk : k.WF) (h : List Op) (g : Nat) :
+    (yieldsOf c (St.init k) g h).Pairwise (· < ·)
+    ∧ (yieldsOf c (St.init k) g h).Nodup
+    ∧ Inv (runAll c (St.init k) h)
+    ∧ ∀ mid, NextOut c (runAll c (St.init k) h) g (step c (runAll c (St.init k) h) (.next g mid)).2 := by
+  have hi := init_inv k hk
+  have h1 := (C04_iter_ascending c g h (St.init k) hi).1
+  have h2 := runAll_inv c h _ hi
+  exact ⟨h1, sorted_nodup h1, h2, fun mid => (genNext_step c _ g mid h2).2.2.2.2.2⟩
+
+/-- **C04_yield_was_listed.** A PID that `next(g)` yields was in the (ascending) listing `g` took
+    when it started: for a generator that has not started, the listing is `pids()` of the table
+    at that moment; for a suspended one, the PID was still on its to-do list. -/
+theorem C04_yield_was_listed (c : Cfg) (s : St) (hi : Inv s) (g : Nat) (mid : List KEv) (r : Ref) (p : Nat)
+    (info : Option (List String)) (h : (step c s (.next g mid)).2 = .yield r p info) :
+    (∀ l, pending s g = some l → p ∈ l)
+    ∧ (pending s g = none → p ∈ sortNat s.k.listdir) := by
+  have gs := genNext_step c s g mid hi
+  obtain ⟨_, _, _, _, g5, _⟩ := gs
+  obtain ⟨rest, _, _, r3⟩ := g5 r p info h
+  refine ⟨r3, ?_⟩
+  intro hp
+  -- not started: the prologue ran now; its to-do list is inside the listing
+  simp only [step, genNext] at h
+  cases hg : s.gens[g]? with
+  | none => rw [hg] at h; cases h
+  | some gen =>
+    rw [hg] at h
+    simp only at h
+    cases hst : gen.st with
+    | done => simp [pending, hg, hst] at hp
+    | running pm todo l => simp [pending, hg, hst] at hp
+    | fresh =>
+      rw [hst] at h
+      simp only at h
+      have pr := prologue_res c s hi.kernel.nodup hi.pmap
+      cases hpr : prologue c s with
+      | mk s1 res =>
+        rw [hpr] at pr h
+        simp only at pr h
+        obtain ⟨p1, p2, p3, _, p5⟩ := pr
+        cases res with
+        | none => cases h
+        | some x =>
+          obtain ⟨pm, todo, listed⟩ := x
+          simp only at p5 h
+          obtain ⟨q1, _, q3, q4, q5, _⟩ := p5
+          have hwf1 : (s1.applyMid mid).k.WF := by
+            simp only [St.applyMid]; rw [p2]; exact Kernel.applyAll_wf s.k mid hi.kernel
+          have vs := visit_step c gen.attrs g listed todo (s1.applyMid mid) pm gen hwf1
+            (by simp only [St.applyMid]; rw [p3]; exact hi.pmap)
+            (fun i gen' _ h => hi.gens i gen' (by simpa [St.applyMid, p1] using h))
+            (by simpa [St.applyMid, p1] using hg) q3 q4 q5
+          obtain ⟨_, _, _, _, _, v6, _, _⟩ := vs
+          obtain ⟨_, _, _, _, _, h3, _⟩ := v6 r p info h
+          rw [← q1]; exact h3
+
+/-! ## `process_iter()` — completeness (with the L19 repair: `_pids_reused` drained first) -/
+
+/-- **C04_iter_each_listed_once / C04_iter_skips_vanished.** One `next(g)` of a generator whose
+    `attrs` contain no reuse-checking name, in ANY history (overlaps included): if `l` is what `g`
+    has still to visit — for a generator that has not started, ALL listed PIDs in ascending
+    order — then a yield of `p` splits `l` into `pre ++ p :: rest`, `rest` is what remains, and
+    every PID of `pre` (skipped) had vanished from the table; and StopIteration means every
+    remaining PID had vanished. So each listed PID is visited exactly once, in ascending order,
+    and is left out only if it vanished while iterating. -/
+theorem C04_iter_each_listed_once (s : St) (hi : Inv s) (g : Nat) (mid : List KEv) (gen : Gen)
+    (hg : s.gens[g]? = some gen) (hnr : NoReuse cfg gen.attrs) (l : List Nat) (hl : remaining s g = some l) :
+    (∀ r p info, (step cfg s (.next g mid)).2 = .yield r p info →
+      ∃ pre rest, l = pre ++ p :: rest ∧ remaining (step cfg s (.next g mid)).1 g = some rest
+        ∧ ∀ q ∈ pre, (s.k.applyAll mid).statStart q = none)
+    ∧ ((step cfg s (.next g mid)).2 = .stop →
+        remaining (step cfg s (.next g mid)).1 g = some [] ∧ ∀ q ∈ l, (s.k.applyAll mid).statStart q = none) :=
+  genNext_complete cfg cfg_good.drain s g mid hi gen hg hnr l hl
+
+/-- non-vacuity: three listed PIDs, PID 5 vanishes right after the listing: 1, 9, stop -/
+example : trace cfg (St.init ⟨[⟨9, 109, false, false, .ok⟩, ⟨1, 101, false, false, .ok⟩, ⟨5, 105, false, false, .ok⟩], []⟩)
+      [.iter .none, .next 0 [.exit 5], .next 0 [], .next 0 []]
+    = [.gen 0, .yield 0 1 none, .yield 1 9 none, .stop] := by decide
 
 /-! ## proved counterexamples (leads re-found through the model; each witness is replayed on the
     real code by the harness corpus) -/
